@@ -176,12 +176,29 @@ def frac_array(a):
 MATRIX_ATTRS = ('QI', 'QE', 'Q1', 'Q2')
 
 
-def exactify(level, dt=None, inject=None):
+def small_rational(a, k):
+    """object array of Fractions close to the floats of a, denominators <= k (keeps exact zeros)"""
+    a = np.asarray(a)
+    out = np.empty(a.shape, dtype=object)
+    for idx in np.ndindex(a.shape):
+        out[idx] = F(float(a[idx])).limit_denominator(k)
+    return out
+
+
+def exactify(level, dt=None, inject=None, small=None):
     """Replace the float tables of level.sweep by exact Fraction images (in place, on this level's
-    own objects only).  inject: dict attr -> Fraction matrix (incl. 'Qmat', 'weights', 'nodes')."""
+    own objects only).  inject: dict attr -> Fraction matrix (incl. 'Qmat', 'weights', 'nodes').
+    small=k: use surrogate tables with denominators <= k instead of the exact float images (keeps the
+    rationals of long exact runs small; for checks that are about the algorithm, not the table)."""
     sw = level.sweep
     coll = sw.coll
-    inject = inject or {}
+    inject = dict(inject or {})
+    if small:
+        for a in ('Qmat', 'weights', 'nodes'):
+            inject.setdefault(a, small_rational(getattr(coll, a), small))
+        for a in MATRIX_ATTRS:
+            if hasattr(sw, a):
+                inject.setdefault(a, small_rational(getattr(sw, a), small))
     coll.Qmat = frac_array(inject.get('Qmat', coll.Qmat))
     coll.weights = frac_array(inject.get('weights', coll.weights))
     coll.nodes = frac_array(inject.get('nodes', coll.nodes))
